@@ -30,6 +30,9 @@ pub struct Aggregator {
 
     /// Set of running sessions which have entered live mode.
     live_mode: HashSet<SessionId>,
+
+    /// Set of running sessions whose sync phase bytes are already part of the totals.
+    synced: HashSet<SessionId>,
 }
 
 impl Aggregator {
@@ -93,6 +96,7 @@ impl Aggregator {
             }
             TopicLogSyncEvent::SyncFinished { metrics } => {
                 self.session_metrics.insert(session_id, metrics.clone());
+                self.synced.insert(session_id);
                 self.total_bytes_sent += metrics.sent_bytes();
                 self.total_bytes_received += metrics.received_bytes();
                 Some(SyncEvent::SyncEnded {
@@ -116,7 +120,18 @@ impl Aggregator {
                 None
             }
             TopicLogSyncEvent::Failed { error } => {
+                let synced = self.synced.contains(&session_id);
                 let metrics = self.handle_session_end(session_id);
+                // A failed session does not report final metrics. What it transferred according
+                // to its last event still counts for the topic, minus the bytes of the sync phase
+                // if they were added already.
+                if synced {
+                    self.total_bytes_sent += metrics.sent_live_bytes;
+                    self.total_bytes_received += metrics.received_live_bytes;
+                } else {
+                    self.total_bytes_sent += metrics.sent_bytes();
+                    self.total_bytes_received += metrics.received_bytes();
+                }
                 Some(SyncEvent::SyncEnded {
                     remote,
                     session_id,
@@ -139,6 +154,7 @@ impl Aggregator {
     fn handle_session_end(&mut self, session_id: SessionId) -> Metrics {
         self.running_sessions = self.running_sessions.saturating_sub(1);
         self.live_mode.remove(&session_id);
+        self.synced.remove(&session_id);
         self.session_metrics.remove(&session_id).unwrap_or_default()
     }
 
